@@ -150,6 +150,9 @@ impl Driver for VotorDriver {
             self.a2a.clone(),
         ));
         self._chans = Some((ptx, btx));
+        if let Some(v) = self.votor.as_ref() {
+            let _ = v.verif_take_armed();
+        }
     }
 
     fn step(&mut self, act: &Value) -> Value {
@@ -180,6 +183,11 @@ impl Driver for VotorDriver {
             let v: Vec<ConsensusMessage> = sent.drain(..).collect();
             v.iter().map(|m| self.msg_json(m)).collect()
         };
+        let armed: Vec<u64> = self
+            .votor
+            .as_ref()
+            .map(|v| v.verif_take_armed().iter().map(|s| s.inner()).collect())
+            .unwrap_or_default();
         let panic = match res {
             Ok(()) => String::new(),
             Err(e) => {
@@ -192,7 +200,7 @@ impl Driver for VotorDriver {
                 }
             }
         };
-        json!({"msgs": msgs, "panic": panic})
+        json!({"msgs": msgs, "arm": armed, "panic": panic})
     }
 
     fn obs(&mut self) -> Value {
@@ -240,6 +248,10 @@ impl Driver for VotorDriver {
                 m.as_object_mut().unwrap().remove("signer");
             }
             gm.push(m);
+        }
+        // timers: the windows for which timeouts were (re-)armed in this step
+        if exp.get("arm").is_some() && canon(&exp["arm"]) != canon(&got["arm"]) {
+            d.push("arm".into());
         }
         if canon(&exp["msgs"]) != canon(&Value::Array(gm)) {
             let kinds: Vec<String> = exp["msgs"]
